@@ -532,7 +532,7 @@ def shard(tier, seed, n):
 
 def run(tier, seed):
     t0 = time.time()
-    total = 1500 if tier == 'quick' else 40000
+    total = 4800 if tier == 'quick' else 40000
     jobs = [dict(tier=tier, seed=0, n=None)] + [dict(tier=tier, seed=s, n=total // common.NPROC)
                                                   for s in common.shard_seeds(seed, common.NPROC)]
     stats = common.run_shards(__name__, 'shard', jobs)
